@@ -242,6 +242,14 @@ func (f *Frame) resolveStatic(fn *ssa.Function, cl *closure, sig *types.Signatur
 		p.kind = "noeffect"
 		return p
 	}
+	// Helpers of the repository without a contract of their own are expanded
+	// from source (so that extracting a helper from a verified function does
+	// not lose the proof); large, recursive or deeply nested ones are havocked.
+	if strings.HasPrefix(pkg, "github.com/ipfs/boxo") && len(fn.Blocks) > 0 && len(fn.Blocks) <= 40 &&
+		!f.onStack(fn) && f.depth < 3 && fn.Signature.TypeParams().Len() == 0 {
+		p.kind = "inline"
+		return p
+	}
 	if isNoEffectPkg(pkg) {
 		p.kind = "noeffect"
 		// deterministic value-only functions become uninterpreted functions
